@@ -8,4 +8,5 @@ Extraction "c20_model.ml"
   valid_solution exists_solution enum_size cand_keys
   index_packages assignment_of_ip index_dep_version known_class
   locked_of reachable_part choose_version
-  precise sorted_dependencies lock_new lock_entries package_map all_packages.
+  precise sorted_dependencies lock_new lock_entries package_map all_packages
+  up_to_date copy_from_lock.
